@@ -35,11 +35,13 @@ def verdict (minor nlines : Nat) (bs : Bytes) : String × String :=
     match validateBytes t nlines bs with
     | none => ("viol:not-a-code-object", "-")
     | some rs =>
-      if rs.all Report.ok then ("ok", "-")
+      if rs.all (fun x => x.2.ok) then ("ok", "-")
       else
-        let bad := (rs.zipIdx.filter fun (r, _) => !r.ok).map fun (r, i) => "code#" ++ toString i ++ ":" ++ clauses r
-        ("viol:" ++ String.intercalate "," bad,
-         if K_linetable minor && rs.all Report.okButLines then "C14-linetable-310plus" else "-")
+        let bad := (rs.zipIdx.filter fun (x, _) => !x.2.ok).map fun (x, i) => "code#" ++ toString i ++ ":" ++ clauses x.2
+        -- every failing clause of every code object must be explained by a recorded finding for the case to be in a class K
+        let ks := rs.map fun x => if x.2.ok then some "" else explained t x.1 x.2
+        let ink := if ks.all Option.isSome then (match (ks.filterMap id).filter (· ≠ "") with | k :: _ => k | [] => "-") else "-"
+        ("viol:" ++ String.intercalate "," bad, ink)
 
 def disReport (t : VerTable) (c : CodeView) : String :=
   match decode t c.code with
